@@ -32,6 +32,7 @@ Step(ev) ==
     [] ev.a = "resize"   -> Resize(ev.arg.n)
     [] ev.a = "prepare"  -> Prepare(ev.arg.n, ev.dbg.max)
     [] ev.a = "string"   -> String
+    [] ev.a = "memrev"   -> MemRev(ev.arg.data, ev.arg.pre)
     [] ev.a = "find"     -> Find(ev.arg.esz, ev.arg.b, ev.obs.ret = "unsupported" /\ PrevWrapped)
     [] OTHER             -> FALSE
 
